@@ -273,7 +273,7 @@ def judge(case, ans):
         if a % 4:
             out.append(("C20:unaligned:" + case.kind, "a multiple of 4", "%s placed at %#x: no jal can reach it" % (n[:40], a)))
         hit = None
-        for f in cands[n]:
+        for f in sorted(cands[n], key=lambda f: -f.size):      # duplicates: the longest definition that fits
             exp = expected_bytes(f, big, syms)
             if exp is None:
                 continue
